@@ -230,6 +230,17 @@ func (p *Parser) ParseRemainingExpressionWithPrecedence(left ast.Expression, pre
 		if p.PeekToken.AfterNewline && (p.PeekToken.Type == token.INCREMENT || p.PeekToken.Type == token.DECREMENT) {
 			return left
 		}
+		// The value of a postfix `++`/`--` is not a reference: it cannot be called,
+		// accessed or updated again (after a line break the token starts a new statement)
+		if _, isPostfix := left.(*ast.PostfixExpression); isPostfix {
+			switch p.PeekToken.Type {
+			case token.LPAREN, token.LBRACKET, token.DOT, token.INCREMENT, token.DECREMENT:
+				if !p.PeekToken.AfterNewline {
+					p.AddErrorAtToken(fmt.Sprintf("unexpected %s", p.PeekToken.Literal), p.PeekToken)
+				}
+				return left
+			}
+		}
 		// Smart semicolon insertion: prevent LPAREN and LBRACKET after newline from continuing expression
 		// https://eslint.org/docs/latest/rules/no-unexpected-multiline
 		if p.smartSemicolons && p.PeekToken.AfterNewline {
